@@ -44,6 +44,13 @@ pub struct JitCase {
     pub rounds0: Option<u8>,
     pub ops: Vec<JOp>,
     pub clone_at: Option<usize>,
+    /// preset the pool (cfg(rngs_verif) hook) such that the first collection returns exactly
+    /// this structured value (0, a zero half, all ones, a single bit)
+    #[serde(default)]
+    pub first_result: Option<u64>,
+    /// or preset the pool itself to this value
+    #[serde(default)]
+    pub start_pool: Option<u64>,
 }
 
 pub fn check_det(c: &DetCase) -> CheckResult {
@@ -165,8 +172,17 @@ pub fn check_extreme(c: &ExtremeCase) -> CheckResult {
 
 pub fn check_jit(c: &JitCase) -> CheckResult {
     let script = c.prog.script();
-    let mut g = adapter::jitter_gen(script, c.rounds0, 3_000_000);
+    let mut g = adapter::jitter_gen(script.clone(), c.rounds0, 3_000_000);
     let mut budget_hit = false;
+    let mut targeted = false;
+    if let Some(want) = c.first_result {
+        let rounds = c.rounds0.map(|r| r as u32).unwrap_or(64);
+        if let Some(p0) = crate::refmodel::jitter::pool_for_result(&script, 0, rounds, want, 3_000_000) {
+            targeted = g.jitter().unwrap().set_pool(p0);
+        }
+    } else if let Some(p0) = c.start_pool {
+        targeted = g.jitter().unwrap().set_pool(p0);
+    }
     for (k, op) in c.ops.iter().enumerate() {
         if c.clone_at == Some(k) {
             g = g.clone_box();
@@ -206,7 +222,7 @@ pub fn check_jit(c: &JitCase) -> CheckResult {
         }
         let _ = (g.debug(), g.debug_alt());
     }
-    Ok(CaseInfo::new(c.prog.hostile()).class_if(c.prog.hostile(), "hostile-deltas").class_if(budget_hit, "stuck-budget").class_if(c.ops.contains(&JOp::TestTimer), "has-test_timer"))
+    Ok(CaseInfo::new(c.prog.hostile() || targeted).class_if(c.prog.hostile(), "hostile-deltas").class_if(budget_hit, "stuck-budget").class_if(c.ops.contains(&JOp::TestTimer), "has-test_timer").class_if(targeted, "pool-or-first-result-preset"))
 }
 
 pub fn def(ctx: &Ctx) -> PropDef {
@@ -248,8 +264,13 @@ pub fn def(ctx: &Ctx) -> PropDef {
             t.pick(1000, 100_000),
             move || {
                 let ops = proptest::collection::vec(prop_oneof![20 => crate::props::c12::jop(64), 1 => Just(JOp::TestTimer)], 0..=max_ops);
-                (gens::timer_prog(true, 16), proptest::option::weighted(0.85, gens::jitter_rounds()), ops, proptest::option::weighted(0.3, 0usize..12))
-                    .prop_map(|(prog, rounds0, ops, clone_at)| JitCase { prog, rounds0, ops, clone_at })
+                (gens::timer_prog(true, 16), proptest::option::weighted(0.85, gens::jitter_rounds()), ops, proptest::option::weighted(0.3, 0usize..12), proptest::option::weighted(0.2, crate::props::c12::structured_value()), proptest::option::weighted(0.15, crate::props::c12::structured_value()))
+                    .prop_map(|(prog, rounds0, mut ops, clone_at, first_result, start_pool)| {
+                        if first_result.is_some() && !ops.iter().any(|o| matches!(o, JOp::U32 | JOp::U64)) {
+                            ops.insert(0, JOp::U64);
+                        }
+                        JitCase { prog, rounds0, ops, clone_at, first_result, start_pool }
+                    })
                     .boxed()
             },
             check_jit,
@@ -335,6 +356,8 @@ pub fn def(ctx: &Ctx) -> PropDef {
                     rounds0: Some(rounds),
                     ops: vec![JOp::U64, JOp::U32, JOp::U64],
                     clone_at: None,
+                    first_result: None,
+                    start_pool: None,
                 })
                 .boxed()
         },
